@@ -73,7 +73,7 @@ def parse_assumptions(out):
     for blk in re.findall(r"Axioms:\n(.*?)(?=\n\S|\Z)", out, re.S):
         pass
     for m in re.finditer(r"^([A-Za-z_][\w\.']*)\s*:", out, re.M):
-        axioms.add(m.group(1))
+        if m.group(1) != "Axioms": axioms.add(m.group(1))
     return closed, sorted(axioms)
 
 def build_props(mod):
@@ -255,7 +255,7 @@ def main():
     seed = int(os.environ.get("VERIF_SEED", "0"))
     boot.check_repo_is_source()
     bdir = os.path.join(VERIF, "build", pid)
-    shutil.rmtree(bdir, ignore_errors=True); os.makedirs(bdir)
+    shutil.rmtree(bdir, ignore_errors=True); os.makedirs(bdir, exist_ok=True)
     violations = []            # (kind, replay-record)
     notes = []
 
